@@ -180,30 +180,14 @@ def oracle_utf8(kind, chunks, impl_line):
 HALFWIDTH = {0x28: "\uff68", 0x24: "\uff64"}
 
 
-def oracle_enc(label, chunks, impl_line):
-    """returns (violation or None, loop-model disagreement or None, contract flags)"""
-    parts = impl_line.split(" ; ")
-    if len(parts) != 3:
-        return ("malformed harness output", "harness-output"), None, []
-    evs = parse_events(parts[0])
-    ref = parts[1].split()
-    flags = [f for f in ref if f[-1] in "=!"]
-    hexes = [f for f in ref if f[-1] not in "=!"]
-    if len(hexes) == 2:
-        ref_text, nmal = bytes.fromhex(hexes[0]), int(hexes[1])
-    else:
-        ref_text, nmal = b"", int(hexes[0])
-    model = parts[2].strip()
-    mdis = None
-    if model != "-" and parse_events(model) != evs:
-        mdis = "EncLoop model (transliterated) vs decode_to_sink: %s" % label
-    if "!" in evs:
-        return ("LossyDecoder panicked", "enc-panic:" + label), mdis, flags
+def enc_classify(label, evs, allb, ref_text, nmal):
+    """None if the events are the one-shot decode, else (description, class signature)"""
+    if "!" in evs or "!fuel" in evs:
+        return ("LossyDecoder panicked / did not terminate", "enc-panic:" + label)
     text = b"".join(bytes.fromhex(e[1:]) for e in evs if e[0] == "s")
     nerr = sum(1 for e in evs if e in ("e", "E"))
-    allb = b"".join(chunks)
     if text == ref_text and nerr == nmal:
-        return None, mdis, flags
+        return None
     cls = "enc-mismatch:" + label
     if (len(allb) >= 2 and allb[-2] == 0x1B and allb[-1] in (0x28, 0x24) and ref_text.startswith(text)
             and evs[-2:] == ["e", "sefbfbd"]):
@@ -214,7 +198,43 @@ def oracle_enc(label, chunks, impl_line):
         elif tail == "\ufffd" and nmal == nerr + 1:
             cls = "enc-loop-last-pending-after-malformed:" + label
     return (("LossyDecoder(%s) delivers %r, one-shot decode gives %r (%d errors vs %d malformed)"
-             % (label, text[-24:], ref_text[-24:], nerr, nmal)), cls), mdis, flags
+             % (label, text[-24:], ref_text[-24:], nerr, nmal)), cls)
+
+
+def sig(evs):
+    return (b"".join(bytes.fromhex(e[1:]) for e in evs if e[0] == "s"), sum(1 for e in evs if e in ("e", "E")))
+
+
+def oracle_enc(label, chunks, impl_line):
+    """returns (violation or None, loop-model disagreement or None, contract flags, loop variant)"""
+    parts = impl_line.split(" ; ")
+    if len(parts) != 4:
+        return ("malformed harness output", "harness-output"), None, [], "?"
+    evs = parse_events(parts[0])
+    ref = parts[1].split()
+    flags = [f for f in ref if f[-1] in "=!"]
+    hexes = [f for f in ref if f[-1] not in "=!"]
+    if len(hexes) == 2:
+        ref_text, nmal = bytes.fromhex(hexes[0]), int(hexes[1])
+    else:
+        ref_text, nmal = b"", int(hexes[0])
+    allb = b"".join(chunks)
+    v = enc_classify(label, evs, allb, ref_text, nmal)
+    # tie of EncLoop.v to the real loop: the loop as pinned (decode_to_sink) or, once /repo is
+    # repaired, decode_to_sink_repaired; a repair may cut the pieces differently
+    mdis, variant = None, "-"
+    if parts[2].strip() != "-":
+        m_pinned, m_rep = parse_events(parts[2]), parse_events(parts[3])
+        if evs == m_pinned:
+            variant = "both" if evs == m_rep else "pinned"
+        elif evs == m_rep:
+            variant = "repaired"
+        elif v is None and sig(evs) == sig(m_rep):
+            variant = "repaired-other-cut"
+        else:
+            variant = "none"
+            mdis = "EncLoop model (transliterated) vs decode_to_sink: %s" % label
+    return v, mdis, flags, variant
 
 
 def oracle_parse(impl_line):
@@ -439,6 +459,7 @@ def run(ck):
     known_seen = 0
     viol_budget = 5
     fail_classes = {}
+    loop_variants = {}
     for i, (l, kind, chunks, label) in enumerate(cases):
         kinds[kind] = kinds.get(kind, 0) + 1
         a = impl_out[i]
@@ -489,7 +510,8 @@ def run(ck):
                                  % (l, ("bytes %s std %r model %r" % w) if w else "hash differs"))
         elif kind == "L":
             enc_hist[label] = enc_hist.get(label, 0) + 1
-            v, mdis, flags = oracle_enc(label, chunks, a)
+            v, mdis, flags, variant = oracle_enc(label, chunks, a)
+            loop_variants[variant] = loop_variants.get(variant, 0) + 1
             for f in flags:
                 if f.endswith("!"):
                     contract_flags_bad[f + label] = contract_flags_bad.get(f + label, 0) + 1
@@ -541,7 +563,7 @@ def run(ck):
         "kind_histogram": kinds, "encodings": len(enc_hist), "encoding_histogram": enc_hist,
         "length_histogram": {str(k): v for k, v in sorted(len_hist.items())},
         "correspondence_disagreements": disagreements, "spec_vs_std_disagreements": spec_disagreements,
-        "loop_model_disagreements": loop_model_dis, "oracle_failures": oracle_fail,
+        "loop_model_disagreements": loop_model_dis, "loop_model_variant_matched": loop_variants, "oracle_failures": oracle_fail,
         "known_finding_cases": known_seen, "oracle_failure_classes": fail_classes, "attributed_to_C03": c03_attributed,
         "bom_sniffing_cases": sum(v for k, v in contract_flags_bad.items() if k.startswith("bom!")),
         "explanation": "C10_utf8_stream holds for all chunk lists of the model; the model and the Coq spec are tied to "
